@@ -1130,6 +1130,7 @@ def mon_c08(w, F, vd):
                 if bytes([t.raw[0] & 0xF7]) + t.raw[1:] != bytes([first.raw[0] & 0xF7]) + first.raw[1:]:
                     vd.bad("C08.content_changed", "%s of request #%d retransmitted with different content" % (p.kind, p.ri.rid))
                 if not is_first_overall:
+                    ver = w.conns[t.c].version or w.cfg.get("version", 4)     # of the connection it is written on
                     want_dup = True if p.kind == "PUBLISH" else (ver == 3)
                     got_dup = bool(t.raw[0] & 0x08)
                     if got_dup != want_dup:
@@ -1896,7 +1897,13 @@ def mon_c16(w, F, vd):
         for fr in frames:
             try:
                 kind, f, soft = R.ref_decode(fr, R.B2C, ver)
-                classes.append("soft" if soft else "well")
+                if any(("flag nibble" in s_) or ("trailing bytes" in s_) for s_ in soft):
+                    # wrong at the level of the fixed header: reserved flag bits [MQTT-2.2.2-2], or a
+                    # remaining length that a packet of this type cannot have - not a well-formed packet
+                    # whatever its fields say
+                    classes.append("hard")
+                else:
+                    classes.append("soft" if soft else "well")
             except R.Malformed:
                 classes.append("hard")
         evs = _ctx_events(w, e)
@@ -2026,12 +2033,14 @@ def mon_wire(w, F, vd):
                 if list(f["topics"]) != list(r.args["topics"]):
                     vd.bad("C02.live.fields", "unsubscribe #%d asked %r, wrote %r" % (r.rid, r.args["topics"], f["topics"]))
                     break
+            ver = w.conns[t.c].version or w.cfg.get("version", 4)
             want_dup = False if t is first else (True if ri.kind == "publish" else ver == 3)
             if bool(t.raw[0] & 0x08) != want_dup:
                 vd.bad("C02.live.dup", "%s #%d: transmission %d carries DUP=%d under protocol level %d" % (
                     ri.kind, r.rid, ri.tx.index(t) + 1, bool(t.raw[0] & 0x08), ver))
                 break
         for j, t in enumerate(ri.rel):
+            ver = w.conns[t.c].version or w.cfg.get("version", 4)
             want_dup = (j > 0) and ver == 3
             if bool(t.raw[0] & 0x08) != want_dup:
                 vd.bad("C02.live.dup", "PUBREL of publish #%d: transmission %d carries DUP=%d under protocol level %d" % (
